@@ -590,6 +590,27 @@ example :
         .run "#/paths/~1b" [.skip, .skip, .skip, .skip, .write "#/paths/~1c"]] [] =
       ([("#/paths/~1b", "#/paths/~1b")], [("#/paths/~1b", "#/paths/~1b")]) := by decide
 
+/-- what a store of loader.go may write into: the loader's own state; a wrapper's `Value` inside the reference block of
+    that wrapper; the path item's `Ref` inside its block; locations (`url.URL` values of the function), the unexported
+    `doc.url`, and the caller's fresh copy filled by `resolveComponent` -/
+def docWriteOK (r : C03DocWrite) : Bool :=
+  r.base == "loader" ||
+  (r.lhs == "component.Value" && r.kind == "field" && r.inOwnerBlock) ||
+  (r.lhs == "pathItem.Ref" && r.kind == "field" && r.inOwnerBlock) ||
+  [("loadFromDataWithPathInternal", "doc.url"), ("join", "newPath.Path"), ("resolvePathWithRef", "resolvedPath.Fragment"),
+   ("resolveRefPath", "path.Fragment"), ("resolveComponent", "pathRef.Fragment"),
+   ("resolveComponent", "reflect.ValueOf(resolved).Elem()"), ("resolveRef", "resolvedPathRef.Fragment")].contains (r.fn, r.lhs)
+
+/-- The loader stores nothing else into the document it resolves: every field / element store, `delete` and `Set`
+    call of loader.go is one of the above — so outside the reference blocks (the `ref = ""` branches of `resolveG`) a
+    node is only descended into, and inside them a wrapper gets its `Value` and nothing more (together with
+    `refwrites_all_accounted` for the stores through a pointer). -/
+theorem loader_stores_as_modelled : c03DocWrites.all docWriteOK = true := by decide
+
+/-- non-vacuity: the table does hold the 27 `Value` stores (three per wrapper kind) and the restore -/
+example : (c03DocWrites.filter (fun r => r.lhs == "component.Value" && r.inOwnerBlock)).length = 27 ∧
+    (c03DocWrites.filter (fun r => r.lhs == "pathItem.Ref")).length = 1 := by decide
+
 /-- non-vacuity: the path item's block does replace the node and does restore the text; and the check is not
     trivially true — the block with the restore folded into one branch (the shape of C03-r3m3) fails it and has a run
     that ends with the target's text -/
